@@ -208,6 +208,25 @@ func GuardsOf(in ssa.Instruction) []Guard {
 	return out
 }
 
+// GuardsOfEdge returns the guards that hold whenever the edge pred → b is
+// taken: those of pred's terminator, plus pred's own branch when it ends in an If.
+func GuardsOfEdge(pred, b *ssa.BasicBlock) []Guard {
+	if pred == nil || len(pred.Instrs) == 0 {
+		return nil
+	}
+	term := pred.Instrs[len(pred.Instrs)-1]
+	out := append([]Guard(nil), GuardsOf(term)...)
+	if iff, ok := term.(*ssa.If); ok && len(pred.Succs) == 2 && pred.Succs[0] != pred.Succs[1] {
+		switch b {
+		case pred.Succs[0]:
+			out = append(out, Guard{iff, true})
+		case pred.Succs[1]:
+			out = append(out, Guard{iff, false})
+		}
+	}
+	return out
+}
+
 // EdgeGuards is GuardsOf restricted to one If.
 func GuardedBy(in ssa.Instruction, iff *ssa.If, branch bool) bool {
 	for _, g := range GuardsOf(in) {
